@@ -59,6 +59,7 @@ func driveC09(t *testing.T, out *vEmitter) {
 	defer driveC09Stores(t, out)
 	defer vC09NonRefreshing(t, out)
 	defer vC09MaxAgeHosts(t, out)
+	defer vC09NoRefreshToken(t, out)
 	r := vRand()
 	secret := "0123456789abcdefghijklmnopqrstuv"
 	name := "_oauth2_proxy"
@@ -436,6 +437,55 @@ func vC09MaxAgeHosts(t *testing.T, out *vEmitter) {
 					}
 					out.Obs("max-age-hosts", true, vL(vS(h), vStrs(domains), vBool(redis), vBool(big), vI(int64(n))))
 					out.Stat("maxage_host_cases", 1)
+				}
+			}
+		}
+	}
+}
+
+// vC09NoRefreshToken: providers of the OIDC family with a session that carries no refresh token.  Nothing can be
+// refreshed, the identity provider is not contacted, so a request on a session older than cookie-refresh must leave
+// the session's age alone: the session ends cookie-expire after it was issued, however many requests arrive.
+func vC09NoRefreshToken(t *testing.T, out *vEmitter) {
+	vKeys()
+	for _, kind := range []string{"oidc", "keycloak-oidc", "adfs"} {
+		for _, redis := range []bool{false, true} {
+			k := kind
+			e := vTryNewEnv(t, vEnvCfg{oidc: true, redis: redis, mod: func(o *options.Options) {
+				o.Providers[0].Type = options.ProviderType(k)
+				o.Providers[0].OIDCConfig.InsecureSkipNonce = true
+				o.Cookie.Expire = time.Hour
+				o.Cookie.Refresh = 10 * time.Minute
+			}})
+			if e == nil {
+				out.Stat("c09_no_refresh_token_config_rejected", 1)
+				continue
+			}
+			issued := time.Now().Add(-25 * time.Minute).Truncate(time.Second)
+			tokenExp := time.Now().Add(6 * time.Hour)
+			claims := vClaims("user@example.com", map[string]interface{}{"exp": tokenExp.Unix()})
+			raw := vJWT(vKeyRSA, "RS256", claims)
+			s := &sessionsapi.SessionState{CreatedAt: &issued, ExpiresOn: &tokenExp, Email: "user@example.com", User: "sub-user@example.com",
+				AccessToken: raw, IDToken: raw}
+			b := e.newBrowser("https://app.example.com")
+			vReseed(b, s)
+			e.idp.Reset()
+			for i := 0; i < 3; i++ {
+				r := b.get("/oauth2/auth")
+				rq := httptest.NewRequest("GET", "https://app.example.com/", nil)
+				rq.Header.Set("Cookie", b.cookieHeader("/"))
+				got, err := e.p.sessionStore.Load(rq)
+				tokenCalls := len(e.idp.Calls("/token"))
+				out.Obs("no-refresh-token", true, vL(vS(k), vBool(redis), vI(int64(r.Status)), vI(int64(tokenCalls))))
+				out.Stat("no_refresh_token_requests", 1)
+				if r.Status != 202 || err != nil || got == nil || got.CreatedAt == nil {
+					// refusing the session is fail-closed; nothing to compare
+					break
+				}
+				if tokenCalls == 0 && !got.CreatedAt.Equal(issued) {
+					out.Violation("lifetime/age-reset-without-refresh", "a session's age was reset although the identity provider was not asked to refresh it",
+						map[string]interface{}{"provider": k, "redis": redis, "issued": issued.Unix(), "created_at_now": got.CreatedAt.Unix(), "request": i})
+					break
 				}
 			}
 		}
